@@ -74,6 +74,7 @@ type qres struct {
 	Conns   int64
 	Snap    *middleware.RecursionWorkSnapshot // only when the harness owns the ledger
 	EnfErr  bool                              // harness-owned ledger latched a rejection
+	Touched int                               // scripted servers that received at least one packet
 }
 
 func (r qres) packets() int64 {
@@ -120,6 +121,10 @@ func (sp *sysPipe) query(name string, qtype uint16, edns, do bool, client string
 		client = "10.1.2.3:4242"
 	}
 	u0, t0, c0 := settle(sp.T.W)
+	before := make([]int64, len(sp.T.W.Servers))
+	for i, s := range sp.T.W.Servers {
+		before[i] = s.UDPQueries.Load() + s.TCPQueries.Load()
+	}
 	w := mock.NewWriter("udp", client)
 	ch := sp.P.P.NewChain()
 	ch.Reset(w, req)
@@ -141,6 +146,11 @@ func (sp *sysPipe) query(name string, qtype uint16, edns, do bool, client string
 	u1, t1, c1 := settle(sp.T.W)
 	out.Elapsed = el
 	out.UDP, out.TCP, out.Conns = u1-u0, t1-t0, c1-c0
+	for i, s := range sp.T.W.Servers {
+		if i < len(before) && s.UDPQueries.Load()+s.TCPQueries.Load() > before[i] {
+			out.Touched++
+		}
+	}
 	if ledger != nil {
 		s := ledger.Snapshot()
 		out.Snap = &s
